@@ -1,6 +1,7 @@
 use crate::common::Emitter;
 pub mod c13;
 pub mod c14;
+pub mod c16;
 pub mod c08;
 pub mod c05;
 pub mod gsess;
@@ -20,6 +21,7 @@ pub fn replay(prop: &str, line: &str, em: &mut Emitter) {
         op if op.starts_with("per_") => per::run_case(&toks, em),
         "gsess" => gsess::run_case(&toks, em),
         "decomp" => c08::run_case(&toks, em),
+        "seal" => c16::run_case(&toks, em),
         "x224_conn" | "gcc_ccr" | "lic" | "mcs_conn" | "sec_conn" => c05::run_case(&toks, em),
         _ => { let _ = prop; eprintln!("unknown op {}", toks[0]); }
     }
@@ -33,6 +35,7 @@ pub fn generate(prop: &str, thorough: bool, seed: u64, em: &mut Emitter) {
         "C19" => c19::generate(thorough, seed, part, em),
         "C18" => c18::generate(thorough, seed, part, em),
         "C02" => c05::generate_c02(thorough, seed, part, em),
+        "C16" => c16::generate(thorough, seed, part, em),
         "C08" | "C09" => c08::generate(prop, thorough, seed, part, em),
         "C05" => c05::generate_c05(thorough, seed, part, em),
         "C06" => gsess::generate_c06(thorough, seed, part, em),
